@@ -99,7 +99,7 @@ int sm2_z256_rand_range(sm2_z256_t r, const sm2_z256_t range)
 	VERIF_LOOP_INVARIANT(tries <= 100)
 	VERIF_LOOP_INVARIANT(verif_rb_fail == VERIF_LOOP_ENTRY(verif_rb_fail))
 	VERIF_LOOP_INVARIANT(verif_rb_calls == VERIF_LOOP_ENTRY(verif_rb_calls) + (100 - tries))
-	VERIF_LOOP_INVARIANT(tries == 100 || (verif_rb_buf == (const void *)r && verif_rb_len == 32))
+	VERIF_LOOP_INVARIANT(tries == 100 || (verif_rb_buf == (size_t)r && verif_rb_len == 32))
 	VERIF_LOOP_DECREASES(tries)
 	{
 		if (!tries) {
